@@ -81,7 +81,7 @@ macro_rules! c03_triangular {
 //@ besteffort: yes
 //@ prop: C03
 //@ tier: thorough
-//@ cap: 7200
+//@ cap: 1500
 //@ funcs: Triangular::<f32>::new; Triangular::<f32>::sample; rand StandardUniform::<f32>
 //@ bounds: all (min, max, mode) accepted by new() with |min|,|max| <= 1e30; all 2^24 uniform values
 //@ assumes: libm::sqrtf = exact characterisation of the correctly rounded root; max - min <= 1.8e19 (known finding triangular_f32_range_overflow); max(|min|,|max|) >= 1e-15 (known finding triangular_f32_underflow)
@@ -106,7 +106,7 @@ c03_triangular!(c03_triangular_f32_kf_tiny, f32, 1e30, 1.1920929e-7f64, 1.8e19, 
 //@ besteffort: yes
 //@ prop: C03
 //@ tier: thorough
-//@ cap: 3600
+//@ cap: 1500
 //@ funcs: Triangular::<f64>::new; Triangular::<f64>::sample
 //@ bounds: all (min, max, mode) accepted by new() with |min|,|max| <= 1e100; every 64-bit word
 //@ assumes: libm::sqrt = 1-ulp enclosure contract
